@@ -263,6 +263,17 @@ func runCheck(repo, prop, tier string) int {
 		frameResults = append(frameResults, runFrame(w, sp, fr))
 	}
 
+	// obligations recorded as open known findings are expected to fail: they get the short pipeline (the long portfolio and the
+	// hypothesis-subset retry are skipped), so a known finding does not cost a minute per failing path on every run
+	for _, kf := range loadKnownFindings(filepath.Join(root, "known_findings.txt")) {
+		if kf.State == "open" && kf.Property == prop {
+			for _, j := range jobs {
+				if j.o.Name == kf.Obligation {
+					j.o.ExpectFail = true
+				}
+			}
+		}
+	}
 	verdicts := dischargeAll(jobs, workDir, tsec, allAgree, 16)
 	named := map[string]*namedResult{}
 	var order []string
